@@ -275,6 +275,10 @@ func runC01(c *Ctx) {
 		c.verdict(okArm, c.nm(fn)+" | nextCheckpoint re-armed from findNextHeaderCheckpoint", c.P.Pos(fn.Pos()), "b.nextCheckpoint = b.findNextHeaderCheckpoint(finalHeight)", "handleHeadersMsg no longer moves nextCheckpoint on after a checkpoint header")
 	})
 
+	c.rule("C01.V10", "lookups by height, by hash and of the tip agree after a reorganisation: the flat file is cut back by exactly the headers the index dropped (a header left behind the new tip is still reported by height, and the competing header written next is found by hash at a height that reads back the old one): "+truncatesWholeRecordsDoc, func() { c.truncatesWholeRecords() })
+
+	c.rule("C01.G8", "a checkpointed header cannot be displaced: "+prevCheckpointFromFirstDoc, func() { c.prevCheckpointFromFirst() })
+
 	c.rule("C01.G6", "checkpoint-mismatch recovery rolls back below the failing checkpoint: findPreviousHeaderCheckpoint adopts a checkpoint only if its height is strictly below the given height", func() {
 		c.prevCheckpointStrict()
 	})
@@ -645,6 +649,64 @@ func (c *Ctx) prevCheckpointStrict() {
 		walk(v)
 	}
 	c.guarded(fn, g, 1, "adopt checkpoints[i] as the previous checkpoint", cands, 1, gDominate)
+}
+
+const prevCheckpointFromFirstDoc = "the search for the last checkpoint below a height looks at every entry of the chain's checkpoint list, the first one included: in findPreviousHeaderCheckpoint the loop over ChainParams.Checkpoints is a unit-step counter that starts at (counting up) or runs down to (counting down) index 0; with the first entry left out, a tip that has reached only that checkpoint gets the genesis block as its reorganisation floor, and a heavier branch forking below the checkpoint replaces the checkpointed header"
+
+// prevCheckpointFromFirst: see prevCheckpointFromFirstDoc.
+func (c *Ctx) prevCheckpointFromFirst() {
+	fn := c.fn("(*neutrino.blockManager).findPreviousHeaderCheckpoint")
+	construct := c.nm(fn) + " | the scan of the checkpoint list includes index 0"
+	pos := c.P.Pos(fn.Pos())
+	cps := c.field(pChaincfg, "Params", "Checkpoints")
+	// the loop(s) indexing the checkpoint list
+	heads := map[*ssa.BasicBlock]bool{}
+	ir.Instrs(fn, func(in ssa.Instruction) {
+		ia, ok := in.(*ssa.IndexAddr)
+		if !ok || !loadsField(cps)(ia.X) {
+			return
+		}
+		if h := ir.LoopHeaderOf(in.Block()); h != nil {
+			heads[h] = true
+		}
+	})
+	if len(heads) != 1 {
+		c.undecided(construct, pos, fmt.Sprintf("found %d loops over ChainParams.Checkpoints, 1 tabled", len(heads)))
+		return
+	}
+	var h *ssa.BasicBlock
+	for x := range heads {
+		h = x
+	}
+	lf := loopFormOf(h)
+	if lf.problem != "" {
+		c.fail(construct, pos, lf.problem)
+		return
+	}
+	switch lf.step {
+	case 1:
+		k, isC := ir.ConstInt(lf.init)
+		if lf.pre {
+			k++
+		}
+		c.verdict(isC && k == 0, construct, c.at(lf.test), "counts up from index 0", fmt.Sprintf("the scan starts at index %d of the checkpoint list (constant start: %v): earlier checkpoints are never candidates", k, isC), c.at(lf.test))
+	case -1:
+		b, isC := ir.ConstInt(lf.bound)
+		lowest := b
+		switch lf.op {
+		case token.GEQ:
+		case token.GTR:
+			lowest = b + 1
+		default:
+			isC = false
+		}
+		if lf.pre {
+			isC = false
+		}
+		c.verdict(isC && lowest == 0, construct, c.at(lf.test), "counts down to index 0", fmt.Sprintf("the scan stops above index 0 of the checkpoint list (lowest index visited %d, recognised: %v): the first checkpoint is never a candidate", lowest, isC), c.at(lf.test))
+	default:
+		c.fail(construct, pos, "the loop over the checkpoint list is not a unit-step counter")
+	}
 }
 
 // nextCheckpointStrict: findNextHeaderCheckpoint hands out a checkpoint only
